@@ -232,6 +232,19 @@ def run_cal(ctx, cid, n_iter):
         A = YearMonth(year=y1, month=m1, calendar=cal); B = YearMonth(year=y2, month=m2, calendar=cal)
         ia, ib = C.idx.get((y1, m1)), C.idx.get((y2, m2))
         if ia is None or ib is None: continue
+        # YearMonth.plus_months moves exactly n months along the calendar's own month sequence (Badi's Ayyam-i-Ha pseudo-month excepted, as for dates)
+        if cid != "Badi":
+            for n_ in (0, 1, -1, ib - ia, 3, -3, 12, -13, rng.randint(-40, 40)):
+                j = ia + n_
+                if not 0 <= j < len(C.seq): continue
+                case = {"kind": "ym_plus_months", "cal": cid, "a": [y1, m1], "n": n_}
+                ctx.ev(); ctx.count("yearmonth_plus_months"); ctx.key((cid, "ym-plus", (n_ > 0) - (n_ < 0), C.seq[j][1] != y1))
+                try:
+                    r_ = A.plus_months(n_)
+                except Exception as e:  # noqa: BLE001
+                    ctx.exc(e); ctx.V(f"C09:yearmonth-plus_months-raised:{exc_key(e)}", f"{cid} {A!r}.plus_months({n_}) raised {e!r}", case, repr(e)); continue
+                if (r_.year, r_.month) != (C.seq[j][1], C.seq[j][2]) or r_.calendar is not cal:
+                    ctx.V("C09:yearmonth-plus_months", f"{cid} YearMonth({y1},{m1}).plus_months({n_}) = ({r_.year},{r_.month}); {n_} months along the calendar is ({C.seq[j][1]},{C.seq[j][2]})", case, (r_.year, r_.month), (C.seq[j][1], C.seq[j][2]))
         for units in (PeriodUnits.YEARS, PeriodUnits.MONTHS, PeriodUnits.YEARS | PeriodUnits.MONTHS):
             case = {"kind": "between_ym", "cal": cid, "a": [y1, m1], "b": [y2, m2], "units": str(units)}
             ctx.ev(); ctx.count("between_yearmonth"); ctx.key((cid, "ym", str(units), (ib > ia) - (ib < ia)))
